@@ -96,7 +96,7 @@ theorem wrap_range (n x : Int) (h1 : -(8 * n) ≤ x) (h2 : x < 16 * n) : 0 ≤ w
   · omega
   · split <;> omega
 
-theorem key_eq (n x y : Int) (hn : 0 < n) (h1 : -(8 * n) ≤ x) (h2 : x < 16 * n) :
+theorem key_eq (n x y : Int) (_hn : 0 < n) (h1 : -(8 * n) ≤ x) (h2 : x < 16 * n) :
     key n (x, y) = (keyX n x y, y) := by
   have hw := wrap_range n x h1 h2
   have e1 := emod_wrap n x h1 h2
@@ -185,5 +185,36 @@ theorem Kp_10 : Kp n 10 a c = (KXs n (4 * n) a c, a + c - 2 * n) := by kx_s
 theorem Kp_11 : Kp n 11 a c = (KXs n (6 * n) a c, a + c - 2 * n) := by kx_s
 
 end
+
+/-! ## gluing of the twelve closed base cells
+
+`Glue n b b' a c a' c'`: the corner `(a, c)` of base cell `b` and the corner `(a', c')` of base cell `b'` are the same
+point of the sphere.  Written by rows (`b / 4`, `b' / 4`) and column difference (`(b' − b) mod 4`); *proved* equivalent
+to the equality of keys in `Lemmas/TopoGlue{N,E,S}.lean` (all 144 pairs of base cells). -/
+
+def Glue (n : Int) (b b' : Nat) (a c a' c' : Int) : Prop :=
+  match b / 4, b' / 4, (b' % 4 + 4 - b % 4) % 4 with
+  | 0, 0, 0 => a = a' ∧ c = c'
+  | 0, 0, 1 => a = n ∧ c' = n ∧ a' = c
+  | 0, 0, 2 => a = n ∧ c = n ∧ a' = n ∧ c' = n
+  | 0, 0, 3 => c = n ∧ a' = n ∧ c' = a
+  | 0, 1, 0 => a = 0 ∧ a' = n ∧ c' = c
+  | 0, 1, 1 => c = 0 ∧ c' = n ∧ a' = a
+  | 0, 2, 0 => a = 0 ∧ c = 0 ∧ a' = n ∧ c' = n
+  | 1, 0, 0 => a = n ∧ a' = 0 ∧ c' = c
+  | 1, 0, 3 => c = n ∧ c' = 0 ∧ a' = a
+  | 1, 1, 0 => a = a' ∧ c = c'
+  | 1, 1, 1 => a = n ∧ c = 0 ∧ a' = 0 ∧ c' = n
+  | 1, 1, 3 => a = 0 ∧ c = n ∧ a' = n ∧ c' = 0
+  | 1, 2, 0 => c = 0 ∧ c' = n ∧ a' = a
+  | 1, 2, 3 => a = 0 ∧ a' = n ∧ c' = c
+  | 2, 0, 0 => a = n ∧ c = n ∧ a' = 0 ∧ c' = 0
+  | 2, 1, 0 => c = n ∧ c' = 0 ∧ a' = a
+  | 2, 1, 1 => a = n ∧ a' = 0 ∧ c' = c
+  | 2, 2, 0 => a = a' ∧ c = c'
+  | 2, 2, 1 => c = 0 ∧ a' = 0 ∧ c' = a
+  | 2, 2, 2 => a = 0 ∧ c = 0 ∧ a' = 0 ∧ c' = 0
+  | 2, 2, 3 => a = 0 ∧ c' = 0 ∧ a' = c
+  | _, _, _ => False
 
 end Hpx.TopoNeigh
